@@ -219,6 +219,7 @@ def run(sh):
         spec = modelgen.generate(seed, profiles[i % 4])
         total = sum(spec['horizon'])
         spec['horizon'] = [total]
+        spec.pop('between', None)
         case = {'engine': 'repro', 'spec': spec, 'seed': seed}
         try:
             # (a) same seed twice (native random tie-breaks), different id offsets; another seed
@@ -262,6 +263,7 @@ def run(sh):
         rng = random.Random(seed)
         spec = modelgen.generate(seed, profiles[i % 4])
         spec['horizon'] = [sum(spec['horizon'])]
+        spec.pop('between', None)
         sj = json.dumps(spec)
         nsim = rng.choice([4, 5, 6, 8])
         case = {'engine': 'parallel', 'spec': spec, 'seed': seed, 'n': nsim}
